@@ -24,7 +24,7 @@ RULE = (
     "transformer; index/shift clauses also Hampel, Imputer x 8 methods, Cosine, ACF, PACF) x "
     "training length m in {9,12} x update schedule (none / k1 / k1,k2 with k in 1..3 and "
     "update_params in {T,F}): after fit and after every update, EVERY stretch z[a:a+len] with "
-    "a in 0..m+4, len in 1..5 is transformed, inverse-transformed and compared with a twin "
+    "a in 0..m+4, len in 1..5 (+ a gapped 5-point selection and the strided slices z[a::2], z[a::3] of 5 points per start) is transformed, inverse-transformed and compared with a twin "
     "whose labels are shifted by +7. states = (configuration, schedule prefix); transitions = "
     "transform / inverse / update calls on the real object."
 )
@@ -200,6 +200,12 @@ def _evaluate(res, tag, cfg, t, t7, z, z7, m, comp_ref, stage):
             # same start and same number of points as the contiguous stretch (a, 5), but with
             # gaps: evaluated right after it
             stretches.append((a, 5, [a + g for g in GAPS]))
+        if gapped_ok:
+            # every k-th point, taken as a SLICE (keeps a RangeIndex with step k / a regular
+            # coarser Period- or DatetimeIndex)
+            for k in (2, 3):
+                if a + 4 * k < len(z):
+                    stretches.append((a, 5, slice(a, a + 4 * k + 1, k)))
     for a, ln, sel in stretches:
         if True:
             x, x7 = (z.iloc[a:a + ln], z7.iloc[a:a + ln]) if sel is None else \
